@@ -5,6 +5,8 @@ package main
 import (
 	"bytes"
 	"encoding/json"
+	"os"
+	"strings"
 	"fmt"
 	"io"
 	"math"
@@ -62,6 +64,29 @@ func arithCase(w io.Writer, cpuReq, memReq, cpuCap, memCap, n, cachedCPU, cached
 	}()
 	emitLine(w, map[string]interface{}{"op": "arith", "cpuReq": cpuReq, "memReq": memReq, "cpuCap": cpuCap, "memCap": memCap, "n": n,
 		"cachedCPU": cachedCPU, "cachedMem": cachedMem, "T": T, "obs": obs})
+}
+
+// runArithFile replays stored inputs (corpus of past findings) through the real functions.
+func runArithFile(path string, w io.Writer, stats map[string]int) {
+	b, err := os.ReadFile(path)
+	if err != nil {
+		return
+	}
+	for _, line := range strings.Split(string(b), "\n") {
+		line = strings.TrimSpace(line)
+		if line == "" || strings.HasPrefix(line, "#") {
+			continue
+		}
+		var c struct {
+			CPUReq, MemReq, CPUCap, MemCap, N, CachedCPU, CachedMem int64
+			T                                                      int
+		}
+		if err := json.Unmarshal([]byte(line), &c); err != nil {
+			panic(err)
+		}
+		arithCase(w, c.CPUReq, c.MemReq, c.CPUCap, c.MemCap, c.N, c.CachedCPU, c.CachedMem, c.T)
+		stats["arith:corpus"]++
+	}
 }
 
 func runArith(r *Rng, n int, w io.Writer, stats map[string]int) {
